@@ -19,10 +19,8 @@ The two non-ASCII tables and the digit limit are generated from the running inte
 point in four contexts and on all short strings over the critical alphabet.
 -/
 import AsyncFix.Generated.PyUnicode
+import AsyncFix.Py.PyStr
 namespace AsyncFix.Py
-
-/-- a Python `str` as its list of code points -/
-abbrev Str := List Nat
 
 /-! ## str(int) -/
 
@@ -68,16 +66,16 @@ def transformWith (spaces zeros : List Nat) : Str → Str
 
 /-- the digit loop of `long_from_string_base`: value so far, number of digits so far, was the previous
 character an underscore.  `none` = syntax error; otherwise (value, digits, unread rest). -/
-def scanDigits (acc nd : Nat) (prevUS : Bool) : Str → Option (Nat × Nat × Str)
+def scanDigitsU (acc nd : Nat) (prevUS : Bool) : Str → Option (Nat × Nat × Str)
   | [] => if prevUS then none else some (acc, nd, [])
   | c :: cs =>
-    if isDigit c then scanDigits (acc * 10 + (c - 48)) (nd + 1) false cs
-    else if c == 95 then (if prevUS then none else scanDigits acc nd true cs)
+    if isDigit c then scanDigitsU (acc * 10 + (c - 48)) (nd + 1) false cs
+    else if c == 95 then (if prevUS then none else scanDigitsU acc nd true cs)
     else if prevUS then none
     else some (acc, nd, c :: cs)
 
 /-- the optional sign -/
-def stripSign : Str → Bool × Str
+def splitSign : Str → Bool × Str
   | 43 :: r => (false, r)
   | 45 :: r => (true, r)
   | r => (false, r)
@@ -88,7 +86,7 @@ def pyIntUnsigned (maxDigits : Nat) (s : Str) : Option Nat :=
   match s with
   | 95 :: _ => none
   | _ =>
-    match scanDigits 0 0 false s with
+    match scanDigitsU 0 0 false s with
     | none => none
     | some (v, nd, rest) =>
       if nd == 0 then none
@@ -97,15 +95,15 @@ def pyIntUnsigned (maxDigits : Nat) (s : Str) : Option Nat :=
       else some v
 
 /-- `PyLong_FromString(buf, &end, 10)` plus the `end == buf + len` test, on the ASCII buffer -/
-def pyIntAscii (maxDigits : Nat) (s : Str) : Option Int :=
-  let p := stripSign (s.dropWhile isCSpace)
+def pyIntBuf (maxDigits : Nat) (s : Str) : Option Int :=
+  let p := splitSign (s.dropWhile isCSpace)
   match pyIntUnsigned maxDigits p.2 with
   | none => none
   | some v => some (if p.1 then -(Int.ofNat v) else Int.ofNat v)
 
 /-- `int(s)` with explicit tables -/
 def pyIntWith (spaces zeros : List Nat) (maxDigits : Nat) (s : Str) : Option Int :=
-  pyIntAscii maxDigits (transformWith spaces zeros s)
+  pyIntBuf maxDigits (transformWith spaces zeros s)
 
 open AsyncFix.Generated.PyUnicode in
 /-- Python `int(s)` for `s : str` over code points: `some n`, or `none` for ValueError. -/
@@ -115,7 +113,7 @@ def pyIntOfString (s : Str) : Option Int :=
 /-- `int(b)` for `bytes` (bytes-like objects go straight to `PyLong_FromString`, no Unicode tables;
 an embedded NUL or a byte ≥ 128 is simply an invalid character) -/
 def pyIntOfBytes (b : List Nat) : Option Int :=
-  pyIntAscii AsyncFix.Generated.PyUnicode.maxStrDigits b
+  pyIntBuf AsyncFix.Generated.PyUnicode.maxStrDigits b
 
 /-- does `int(s)` succeed -/
 def intLike (s : Str) : Bool := (pyIntOfString s).isSome
